@@ -126,6 +126,13 @@ func (env *SpecEnv) expr(x *SExpr) SV {
 		r := env.expr(x.Args[0])
 		env.inOld = false
 		return r
+	case "now":
+		// now(e) inside old(...): e is evaluated in the current state (e.g. a field of a result allocated by the function)
+		was := env.inOld
+		env.inOld = false
+		r := env.expr(x.Args[0])
+		env.inOld = was
+		return r
 	case "un":
 		a := env.expr(x.Args[0])
 		switch x.S {
@@ -245,6 +252,9 @@ func (env *SpecEnv) ident(name string) SV {
 	case "ChainID":
 		e.g().DeclFun("ChainID", nil, sortStr)
 		return SV{t: "ChainID", sort: "Str"}
+	case "BondDenom": // the staking module's bond denomination (a parameter the repo never writes)
+		e.g().DeclFun("BondDenom", nil, sortStr)
+		return SV{t: "BondDenom", sort: "Str"}
 	case "MaxInt64":
 		return SV{t: "9223372036854775807", sort: "Int"}
 	case "MaxUint64":
@@ -533,10 +543,10 @@ func (env *SpecEnv) storeKey(sd *StoreDecl, ks []SV) string {
 	case sd.KeyFun == "byte0":
 		return fmt.Sprintf("(mk_%s (store ((as const (Array Int Int)) 0) 0 0) 1 false)", bs)
 	case sd.KeyFun == "strbytes":
-		g.DeclFun("str2bytes", []string{"Str"}, bs)
+		declStr2Bytes(g, bs)
 		return fmt.Sprintf("(str2bytes %s)", as[0])
 	case strings.HasPrefix(sd.KeyFun, "str:"):
-		g.DeclFun("str2bytes", []string{"Str"}, bs)
+		declStr2Bytes(g, bs)
 		return fmt.Sprintf("(str2bytes %s)", g.StrLit(strings.TrimPrefix(sd.KeyFun, "str:")))
 	case sd.KeyFun == "":
 		env.fail("store %s has no key function", sd.Name)
@@ -845,6 +855,11 @@ func (env *SpecEnv) call(x *SExpr) SV {
 		return SV{t: fmt.Sprintf("(wrap_i64 %s)", argv(0).t), sort: "Int"}
 	case "same": // structural identity (for float fields: bit-identical, unlike Go's ==)
 		return SV{t: fmt.Sprintf("(= %s %s)", argv(0).t, argv(1).t), sort: "Bool"}
+	case "strsplit": // strsplit(s, sep): the same uninterpreted function the code's strings.Split maps to
+		st := types.NewSlice(types.Typ[types.String])
+		ss := g.SortOf(st)
+		g.DeclFun("strsplit", []string{sortStr, sortStr}, ss)
+		return SV{t: fmt.Sprintf("(strsplit %s %s)", argv(0).t, argv(1).t), sort: ss, gt: st}
 	case "isnil":
 		a := argv(0)
 		if _, ok := g.sliceElem[a.sort]; ok {
@@ -966,4 +981,11 @@ func (env *SpecEnv) call(x *SExpr) SV {
 	}
 	env.fail("unknown spec function %q", x.S)
 	return SV{t: "true", sort: "Bool"}
+}
+
+// declStr2Bytes declares the string/[]byte conversion pair with its round-trip axiom (conversion is injective, keeps length).
+func declStr2Bytes(g *Gen, bs string) {
+	g.DeclFun("str2bytes", []string{"Str"}, bs)
+	g.DeclFun("bytes2str", []string{bs}, "Str")
+	g.Axiom("str2bytes.roundtrip", fmt.Sprintf("(forall ((s Str)) (! (and (= (bytes2str (str2bytes s)) s) (not (%s_nil (str2bytes s))) (= (%s_len (str2bytes s)) (strlen s))) :pattern ((str2bytes s))))", bs, bs))
 }
